@@ -598,11 +598,14 @@ def word_to_string(word):
 
 
 def ka_counterexamples(log_text):
-    """all distinguishing words found in a coq build log, as concrete strings"""
+    """all distinguishing words found in a coq build log: [(file, concrete string, word)]"""
     out = []
-    for m in re.finditer(r'File "([^"]+)", line (\d+)[^\n]*\n(?:[^\n]*\n)?\s*(?:Error:)?[^\n]*not a KA theorem:\s*\n?([^\n]*(?:\n(?!File |make)[^\n]+)*)', log_text):
-        word = m.group(3).strip().rstrip(".")
-        out.append((m.group(1), word_to_string(word), word))
+    for m in re.finditer(r"not a KA theorem:", log_text):
+        tail = log_text[m.end():]
+        word = re.split(r"\.\s*(?:\n|$)", tail, maxsplit=1)[0]
+        word = " ".join(word.split())
+        files = re.findall(r'File "([^"]+)", line \d+', log_text[:m.start()])
+        out.append((files[-1] if files else "?", word_to_string(word), word))
     return out
 
 
@@ -640,6 +643,16 @@ def ka_extra(root, tier, seed, summaries):
 def main(argv):
     if len(argv) >= 2 and argv[0] == "--word":
         print(word_to_string(argv[1]))
+        return 0
+    if len(argv) == 4 and argv[0] == "--frozen":
+        # python3 regex2coq.py --frozen <repo_root> <out_file.v> <ModuleName>: a frozen copy of the
+        # translation of some revision, wrapped in a module (used for the pre-fix regexes, C09/PreFix.v)
+        (_atoms, text), info, _ = translate(argv[1])
+        head, body = text.split("Open Scope N_scope.\n", 1)
+        head = head.replace("GENERATED by lib/regex2coq.py from", "FROZEN COPY generated once by lib/regex2coq.py --frozen from")
+        with open(argv[2], "w", encoding="utf8") as f:
+            f.write(head + "Open Scope N_scope.\nModule %s.\n" % argv[3] + body + "End %s.\n" % argv[3])
+        print("regex2coq: frozen copy written", info)
         return 0
     if len(argv) != 2:
         print(__doc__)
